@@ -55,7 +55,13 @@ CONSTANTS
   \* @type: Set(Str);
   Valid,          \* the texts that parse and validate against the schema
   \* @type: Str -> Str;
-  HashOf,         \* the hash function on the alphabet (SHA-256 in the code)
+  HashOf,         \* Text -> HashValue: the TRUE SHA-256 on the alphabet (who is whose pre-image)
+  \* @type: Str -> Str;
+  ImplHash,       \* Text -> HashValue: what computeQueryHash computes; the property needs ImplHash = HashOf
+  \* @type: Set(Str);
+  AltHashes,      \* other spellings of text hashes a client may send (upper-case hex)
+  \* @type: Str -> Str;
+  CanonOf,        \* AltHashes -> the hash value they spell
   \* @type: Set(Str);
   WrongHashes,    \* hashes no text of the alphabet hashes to (random hex, empty, ...)
   \* @type: Set(Str);
@@ -75,8 +81,31 @@ NoText == ""      \* absent or empty query string
 EmptyHash == "x:empty"  \* the hash seen when sha256Hash is absent or ""
 None   == "-"     \* nothing handed to the executor / Get missed / unused request field
 
+(***************************************************************************)
+(* The hash abstraction, explicit.  A hash VALUE is an opaque string; the  *)
+(* model never computes SHA-256, it is given                               *)
+(*   HashOf   : Texts -> HashValue, the true digest.  It is INJECTIVE on   *)
+(*              the alphabet (ConstOK): the alphabet contains NEAR-TWINS - *)
+(*              texts a lossy normalisation would identify (CR inserted,   *)
+(*              CRLF vs LF, trailing newline, BOM, outer spaces, tab vs    *)
+(*              space, a CR that ends a comment, unicode escape vs literal)*)
+(*              - and SHA-256 tells every twin from the other;             *)
+(*   ImplHash : Texts -> HashValue, what the code compares the client's    *)
+(*              hash with.  C15 holds iff ImplHash = HashOf; with a        *)
+(*              non-injective ImplHash (twins collide) Bound and           *)
+(*              ImplConforms are violated (MC_ApqTwin_neg.cfg must be      *)
+(*              refuted by TLC);                                           *)
+(*   AltHashes / CanonOf : other SPELLINGS of a digest (upper-case hex).   *)
+(*              The code compares strings exactly, so at the               *)
+(*              implementation level a spelling is just another wrong      *)
+(*              hash; at the property level a server may treat it as the   *)
+(*              digest it spells, as long as the text bound is that        *)
+(*              digest's pre-image (Canon).                                *)
+(***************************************************************************)
 TextHashes == {HashOf[t] : t \in Texts}
-Hashes     == TextHashes \cup WrongHashes
+Hashes     == TextHashes \cup WrongHashes \cup AltHashes
+\* @type: (Str) => Str;
+Canon(h)   == IF h \in AltHashes THEN CanonOf[h] ELSE h
 AnyText    == Texts \cup {NoText}
 
 ASSUME ConstOK ==
@@ -85,6 +114,9 @@ ASSUME ConstOK ==
   /\ DOMAIN HashOf = Texts
   /\ \A a, b \in Texts : HashOf[a] = HashOf[b] => a = b      \* injective on the alphabet
   /\ WrongHashes \cap TextHashes = {}
+  /\ DOMAIN ImplHash = Texts
+  /\ AltHashes \cap (TextHashes \cup WrongHashes) = {} /\ None \notin AltHashes
+  /\ DOMAIN CanonOf = AltHashes /\ \A h \in AltHashes : CanonOf[h] \in TextHashes
   /\ Kinds \subseteq {"map", "lru"} /\ Kinds # {}
   /\ Caps \subseteq Nat \ {0} /\ Caps # {}
   /\ MalWithHash \subseteq MalKinds
@@ -194,16 +226,18 @@ HashOnlyMiss(h) ==
 
 \* Well-formed version 1 with query text: compare first ...
 TextHashMismatch(t, h) ==
-  /\ HashOf[t] # h
+  /\ ImplHash[t] # h
   /\ Respond(Req(t, "pq", "1", h, None), None, "mismatch", NoOps)
   /\ NoCacheOp /\ Frame
 
 \* ... then store (also when the text will turn out not to parse: the store
 \* happens before the executor sees the text), then execute the text sent.
+\* (the key is the hash the client supplied, which the comparison found equal
+\* to ImplHash[t])
 TextHashOK(t) ==
-  /\ Respond(Req(t, "pq", "1", HashOf[t], None), t, ExecClass(t), <<OpAdd(HashOf[t], t)>>)
-  /\ cache' = CacheAfterAdd(HashOf[t], t)
-  /\ order' = OrderAfterAdd(HashOf[t])
+  /\ Respond(Req(t, "pq", "1", ImplHash[t], None), t, ExecClass(t), <<OpAdd(ImplHash[t], t)>>)
+  /\ cache' = CacheAfterAdd(ImplHash[t], t)
+  /\ order' = OrderAfterAdd(ImplHash[t])
   /\ Frame
 
 MalHashes(m) == IF m \in MalWithHash THEN Hashes ELSE {None}
@@ -234,7 +268,7 @@ Step(r) ==
      \/ r.ext = "pq" /\ r.ver = "1" /\ r.text = NoText /\ r.hash \in Hashes
           /\ (HashOnlyHit(r.hash) \/ HashOnlyMiss(r.hash))
      \/ r.ext = "pq" /\ r.ver = "1" /\ r.text # NoText /\ r.hash \in Hashes
-          /\ ((r.hash = HashOf[r.text] /\ TextHashOK(r.text)) \/ TextHashMismatch(r.text, r.hash))
+          /\ ((r.hash = ImplHash[r.text] /\ TextHashOK(r.text)) \/ TextHashMismatch(r.text, r.hash))
   /\ act' = r
 
 InitState(k, c) ==
@@ -253,7 +287,8 @@ Spec == Init /\ [][Next]_vars
 (* Property level: what C15 states *)
 
 \* The cache binds a hash only to the text that hashes to it.
-Bound == \A h \in DOMAIN cache : cache[h] \in Texts /\ HashOf[cache[h]] = h
+\* (HashOf, the true digest: the text bound is the PRE-IMAGE of the key)
+Bound == \A h \in DOMAIN cache : cache[h] \in Texts /\ HashOf[cache[h]] = Canon(h)
 
 \* Everything in the cache was sent by some client together with that hash.
 WasSent == History => \A h \in DOMAIN cache : <<h, cache[h]>> \in sent
@@ -296,9 +331,12 @@ WellFormedV1(r) == r.ext = "pq" /\ r.ver = "1"
 (* served or registered at all (and when), the error class or wording of   *)
 (* a rejection, which version spellings are accepted, how an absent        *)
 (* sha256Hash is treated.                                                  *)
-HashOK(h, t) == t \in Texts /\ HashOf[t] = h
+HashOK(h, t) == t \in Texts /\ HashOf[t] = Canon(h)
+\* t was sent together with (some spelling of) the digest h spells
 \* @type: (Set(<<Str, Str>>), Str, Str) => Bool;
-SentOK(s, h, t) == HashOK(h, t) /\ (History => <<h, t>> \in s)
+SentWith(s, h, t) == \E p \in s : Canon(p[1]) = Canon(h) /\ p[2] = t
+\* @type: (Set(<<Str, Str>>), Str, Str) => Bool;
+SentOK(s, h, t) == HashOK(h, t) /\ (History => SentWith(s, h, t))
 Rejecting == {"mismatch", "invalid", "version", "decode", "notfound", "apqreject"}
 
 \* (1) Bound: every entry binds a hash to a text that hashes to it
@@ -341,8 +379,8 @@ RMismatch(r, o, changed) ==
 \* @type: (Str -> Str, { text: Str, ext: Str, ver: Str, hash: Str, mal: Str }, Str -> Str, Set(<<Str, Str>>)) => Bool;
 RRegister(c, r, c2, s2) ==
   \A h \in DOMAIN c2 :
-     IF History THEN <<h, c2[h]>> \in s2
-     ELSE (h \in DOMAIN c /\ c2[h] = c[h]) \/ (h = r.hash /\ c2[h] = r.text)
+     IF History THEN SentWith(s2, h, c2[h])
+     ELSE (h \in DOMAIN c /\ c2[h] = c[h]) \/ (Canon(h) = Canon(r.hash) /\ c2[h] = r.text)
 
 PropRules(c, s, r, o, changed, c2, s2) ==
   [bound    |-> RBound(c2),
